@@ -2287,3 +2287,716 @@ func isParamValue(v ssa.Value) bool {
 	_, ok := v.(*ssa.Parameter)
 	return ok
 }
+
+// P06-datetime-near — service.NewDateTime(d, t) computes d.PlusDays(-1|0|+1), which panics at the
+// ends of the representable range. It is total only because it is applied to the clock date or
+// to a record date that has been compared EQUAL to a date within one day of the clock date (the
+// future-entries warning looks at yesterday's, today's and tomorrow's record only): a record
+// dated 0000-01-01 with an entry `<23:00 - 1:00` never reaches it. Checked per call site: the
+// date argument is clock-derived, or every way into the code around the call establishes
+// <clock date>[.PlusDays(k)].IsEqualTo(<that record date>) with |k| <= 1.
+func ruleP06DateTimeNear(p *Prog, r *Report) {
+	const rule = "P06-datetime-near"
+	ndt := p.fn("klog/service", "NewDateTime")
+	if !r.anchorFn(rule, ndt, "service.NewDateTime") {
+		return
+	}
+	isClockDate := func(v ssa.Value) (bool, int64) {
+		k := int64(0)
+		for i := 0; i < 3; i++ {
+			if n, recv, args, c := methodCall(v); c != nil && n == "PlusDays" && len(args) == 1 {
+				kk, isK := constInt(args[0])
+				if !isK {
+					return false, 0
+				}
+				k += kk
+				v = recv
+				continue
+			}
+			break
+		}
+		if c, _ := callOf(v); c != nil && staticCallee(c) != nil && fnBase(staticCallee(c)) == "NewDateFromGo" {
+			return true, k
+		}
+		if base, fld := fieldLoad(v); fld == "Date" && base != nil {
+			// the Date of a DateTime field named now / of the clock's DateTime
+			if _, f2 := fieldLoad(base); f2 == "now" {
+				return true, k
+			}
+			if fa, isFA := base.(*ssa.FieldAddr); isFA && fieldName(fa) == "now" {
+				return true, k
+			}
+			if c, _ := callOf(base); c != nil && staticCallee(c) != nil && fnBase(staticCallee(c)) == "NewDateTimeFromGo" {
+				return true, k
+			}
+		}
+		if _, fld := fieldLoad(v); fld == "today" {
+			return true, k
+		}
+		return false, 0
+	}
+	near := func(g Guard, d ssa.Value) bool {
+		if !g.Pol {
+			return false
+		}
+		n, recv, args, c := methodCall(g.Cond)
+		if c == nil || n != "IsEqualTo" || len(args) != 1 {
+			return false
+		}
+		for _, pr := range [][2]ssa.Value{{recv, args[0]}, {args[0], recv}} {
+			if leafKey(pr[0]) != leafKey(d) && !sameValue(pr[0], d) {
+				continue
+			}
+			if ok, k := isClockDate(pr[1]); ok && k >= -1 && k <= 1 {
+				return true
+			}
+		}
+		return false
+	}
+	n := 0
+	for _, f := range p.srcFns {
+		if !p.inMod(f) {
+			continue
+		}
+		for _, c := range callsTo(f, ndt) {
+			n++
+			key := fmt.Sprintf("%s#%d", fnName(f), n)
+			d := c.Common().Args[0]
+			if ok, _ := isClockDate(d); ok {
+				r.ok(rule, key, p.instrPos(c), "the date is the clock's date")
+				continue
+			}
+			if prm, isP := strip(d).(*ssa.Parameter); isP && f == p.fn("klog/service", "NewDateTimeFromGo") {
+				_ = prm
+			}
+			// the position of the call in its outermost enclosing function
+			at := c.Block()
+			g := f
+			for g.Parent() != nil {
+				uses := closureUses(g.Parent(), g)
+				if len(uses) != 1 {
+					at = nil
+					break
+				}
+				at = uses[0].Block()
+				g = g.Parent()
+			}
+			okNear := false
+			for b := at; b != nil && !okNear; b = b.Idom() {
+				// every way into b establishes the nearness
+				nWays, all := 0, true
+				for _, pb := range b.Preds {
+					if b.Dominates(pb) {
+						continue // back edge
+					}
+					nWays++
+					found := false
+					for _, gd := range append(append([]Guard{}, guardsOf(pb)...), edgeGuard(pb, b)...) {
+						if near(gd, d) {
+							found = true
+						}
+					}
+					if !found {
+						all = false
+					}
+				}
+				if nWays > 0 && all {
+					okNear = true
+				}
+			}
+			r.check(okNear, rule, key, p.instrPos(c), "reached only for a record dated within one day of the clock date", "NewDateTime is applied to a date taken from the file that has not been compared equal to yesterday, today or tomorrow: it steps a day back or forth for shifted times and panics for a record dated 0000-01-01 or 9999-12-31")
+		}
+	}
+	if n < 3 {
+		r.undecided(rule, "floor", "-", "found %d NewDateTime call sites, expected at least 3", n)
+	}
+}
+
+// P09-entry-local-format — the notation remembered for an entry (spaces around the dash, number of
+// placeholder characters) is derived from that entry's own text: the values stored into the
+// range formats inside the entry loop of parse are constants, comparisons or locals of the code
+// that parses this one entry — never a variable that lives across entries (a flag that, once
+// raised by `8:00 - 9:00`, would also print the following `10:00-11:00` with spaces).
+func ruleP09EntryLocalFormat(p *Prog, r *Report) {
+	const rule = "P09-entry-local-format"
+	parse, fam := parseFamily(p)
+	if !r.anchorFn(rule, parse, "parser.parse") {
+		return
+	}
+	var local func(v ssa.Value, fn *ssa.Function, depth int) (bool, string)
+	local = func(v ssa.Value, fn *ssa.Function, depth int) (bool, string) {
+		if depth > 8 {
+			return false, "too deep"
+		}
+		v = plainDeref(v)
+		switch x := v.(type) {
+		case *ssa.Const, *ssa.BinOp, *ssa.Call, *ssa.Extract:
+			return true, ""
+		case *ssa.Phi:
+			for _, e := range x.Edges {
+				if ok, why := local(e, fn, depth+1); !ok {
+					return false, why
+				}
+			}
+			return true, ""
+		case *ssa.UnOp:
+			if x.Op == token.NOT {
+				return local(x.X, fn, depth+1)
+			}
+			if x.Op != token.MUL {
+				return true, ""
+			}
+			cell := cellOf(x.X)
+			if cell == nil {
+				return true, "" // a field of the entry's own parsing state
+			}
+			for _, st := range storesTo(cell) {
+				// the variable must be (re)assigned by the code of this entry only
+				inside := false
+				for g := st.in.Parent(); g != nil; g = g.Parent() {
+					if g == fn {
+						inside = true
+					}
+				}
+				if !inside {
+					return false, "the variable " + cell.Comment + " is also assigned at " + p.instrPos(st.in) + ", outside the code that parses one entry"
+				}
+				if ok, why := local(st.val, fn, depth+1); !ok {
+					return false, why
+				}
+			}
+			return true, ""
+		}
+		return true, ""
+	}
+	n := 0
+	for _, f := range fam {
+		eachInstr(f, func(in ssa.Instruction) {
+			st, ok := in.(*ssa.Store)
+			if !ok {
+				return
+			}
+			fa, ok := st.Addr.(*ssa.FieldAddr)
+			if !ok {
+				return
+			}
+			tn := typeNameOf(fa.X.Type())
+			if tn != "RangeFormat" && tn != "OpenRangeFormat" {
+				return
+			}
+			n++
+			// the code of one entry: the closure directly below parse that contains the store
+			scope := f
+			for scope.Parent() != nil && scope.Parent() != parse {
+				scope = scope.Parent()
+			}
+			okL, why := local(st.Val, scope, 0)
+			r.check(okL, rule, fnName(f)+":"+tn+"."+fieldName(fa), p.instrPos(st), "the notation stored for the entry derives from this entry's text", "the notation stored for an entry depends on state that outlives the entry: "+why)
+		})
+	}
+	if n < 3 {
+		r.undecided(rule, "floor", "-", "found %d notation fields stored by parse, expected at least 3", n)
+	}
+}
+
+// P10-span — an error span lies inside its line: when the LENGTH of an error is the whole length
+// of a line (x.Length()), its START is column 0; a start at the current reading position goes
+// with the remaining length or with the length of a token cut from there.  (Start and length are
+// compared as polynomials over the Parseable's character count and reading position, whichever
+// accessors spell them.)
+func ruleP10Span(p *Prog, r *Report) {
+	const rule = "P10-span"
+	parse, fam := parseFamily(p)
+	newM := p.method("klog/parser", "HumanError", "New")
+	if !r.anchorFn(rule, parse, "parser.parse") || !r.anchorFn(rule, newM, "HumanError.New") {
+		return
+	}
+	n := 0
+	ord := map[string]int{}
+	for _, f := range fam {
+		eachInstr(f, func(in ssa.Instruction) {
+			c, ok := in.(*ssa.Call)
+			if !ok || !sameFn(staticCallee(c), newM) || len(c.Call.Args) < 5 {
+				return
+			}
+			n++
+			code := "?"
+			if rc, _ := callOf(c.Call.Args[0]); rc != nil && staticCallee(rc) != nil {
+				code = fnBase(staticCallee(rc))
+			}
+			ord[fnName(f)+code]++
+			key := fmt.Sprintf("%s:%s#%d", fnName(f), code, ord[fnName(f)+code])
+			pos, length := polyX(c.Call.Args[3]), polyX(c.Call.Args[4])
+			whole := ""
+			for k, coef := range length.Terms {
+				if coef == 1 && strings.HasPrefix(k, "len(field:") && strings.HasSuffix(k, ".Chars)") {
+					x := strings.TrimSuffix(strings.TrimPrefix(k, "len(field:"), ".Chars)")
+					if length.Terms["field:"+x+".PointerPosition"] != -1 {
+						whole = x
+					}
+				}
+			}
+			if whole == "" {
+				r.ok(rule, key, p.instrPos(c), "the length is not a whole line's length")
+				return
+			}
+			// the whole line: the start must not be that line's reading position
+			bad := pos.Terms["field:"+whole+".PointerPosition"] > 0
+			r.check(!bad, rule, key, p.instrPos(c), "a whole-line length starts at a position that does not depend on how far the line was read", "the error is as long as the whole line but starts at the current reading position of that line: the span reaches beyond the end of the line (start "+pos.String()+", length "+length.String()+")")
+		})
+	}
+	if n < 18 {
+		r.undecided(rule, "floor", "-", "found %d error creation sites, expected at least 18", n)
+	}
+}
+
+// P07-tail-bytes — the tail of a batch is cut off at "bytes consumed minus the bytes of the last
+// block"; countBytes must therefore measure a block exactly as ParseBlock counted it: the sum,
+// over all its lines, of the length of the line as it stood in the text — len(l.Original()), or
+// len(l.Text)+len(l.LineEnding) — with nothing estimated (a line ending is one OR two bytes).
+func ruleP07TailBytes(p *Prog, r *Report) {
+	const rule = "P07-tail-bytes"
+	f := p.fn("klog/parser/engine", "countBytes")
+	if !r.anchorFn(rule, f, "engine.countBytes") {
+		return
+	}
+	for i, ret := range returnsOf(f) {
+		key := fmt.Sprintf("return#%d", i)
+		phis, ins := phiCycle(retResult(ret, 0))
+		ok := len(phis) > 0
+		why := ""
+		for _, in := range ins {
+			if k, isK := constInt(in); isK {
+				if k != 0 {
+					ok, why = false, "the count does not start at 0"
+				}
+				continue
+			}
+			pl := polyOf(in)
+			kinds := map[string]int64{}
+			if pl.C != 0 {
+				ok, why = false, fmt.Sprintf("a constant (%+d) is added per line", pl.C)
+			}
+			for k, c := range pl.Terms {
+				v := pl.leafV[k]
+				if q, isQ := strip(v).(*ssa.Phi); isQ && phis[q] && c == 1 {
+					continue
+				}
+				lc, isC := strip(v).(*ssa.Call)
+				if !isC {
+					ok, why = false, "something that is not a length is added"
+					continue
+				}
+				bi, isB := lc.Call.Value.(*ssa.Builtin)
+				if !isB || bi.Name() != "len" {
+					ok, why = false, "something that is not a length is added"
+					continue
+				}
+				arg := lc.Call.Args[0]
+				if n, recv, _, mc := methodCall(arg); mc != nil && n == "Original" && rangeElemOf(recv) != nil {
+					kinds["Original"] += c
+					continue
+				}
+				if base, fld := fieldLoad(arg); (fld == "Text" || fld == "LineEnding") && base != nil && rangeElemOf(base) != nil {
+					kinds[fld] += c
+					continue
+				}
+				ok, why = false, "a length of something other than the line is added"
+			}
+			full := (kinds["Original"] == 1 && len(kinds) == 1) || (kinds["Text"] == 1 && kinds["LineEnding"] == 1 && len(kinds) == 2)
+			if !full && ok {
+				ok, why = false, fmt.Sprintf("per line it adds %v", kinds)
+			}
+			if b, isB := in.(*ssa.BinOp); isB {
+				if only, _ := onlyLoopGuards(b.Block()); !only {
+					ok, why = false, "a line is counted conditionally"
+				}
+			}
+		}
+		r.check(ok, rule, key, p.instrPos(ret), "countBytes = sum of the original byte lengths of the block's lines", "countBytes does not add up the exact original length of every line ("+why+"): the tail text handed to the next batch starts at the wrong byte")
+	}
+}
+
+// P15-weeknumber — the ISO week a date belongs to is what package time computes for that very
+// day: date.WeekNumber returns both results of (time.Time).ISOWeek of the date's own civil date,
+// unmodified. (A "corrected" week-year — clamped, or replaced by the calendar year — puts the first
+// days of January or the last days of December into the same (year, week) pair as the other end of
+// the year: two different weeks then share a bucket and a hash.)
+func ruleP15WeekNumber(p *Prog, r *Report) {
+	const rule = "P15-weeknumber"
+	f := p.method("klog", "date", "WeekNumber")
+	if !r.anchorFn(rule, f, "klog.(*date).WeekNumber") {
+		return
+	}
+	for i, ret := range returnsOf(f) {
+		key := fmt.Sprintf("return#%d", i)
+		ok := len(ret.Results) == 2
+		var iso ssa.CallInstruction
+		for idx := 0; ok && idx < 2; idx++ {
+			c, j := callOf(retResult(ret, idx))
+			if c == nil || j != idx || staticCallee(c) == nil || staticCallee(c).String() != "(time.Time).ISOWeek" {
+				ok = false
+				break
+			}
+			if iso != nil && iso != c {
+				ok = false
+			}
+			iso = c
+		}
+		if ok {
+			// the receiver derives from the date itself
+			okRecv := false
+			v := iso.Common().Args[0]
+			was := ht.enabled
+			ht.enabled = false // follow the calls themselves, not what a conversion helper builds
+			defer func() { ht.enabled = was }()
+			for hops := 0; hops < 6 && v != nil; hops++ {
+				c, _ := callOf(v)
+				if c == nil || len(c.Common().Args) == 0 {
+					break
+				}
+				v = c.Common().Args[0]
+				if sameValue(v, f.Params[0]) || strip(v) == ssa.Value(f.Params[0]) {
+					okRecv = true
+					break
+				}
+			}
+			ok = okRecv
+		}
+		r.check(ok, rule, key, p.instrPos(ret), "WeekNumber = ISOWeek() of the date's own day, both results unmodified", "WeekNumber does not return the two results of ISOWeek() of the date unmodified: days at the turn of the year get the (year, week) pair of another week")
+	}
+}
+
+// P17-follow-fresh — `today --follow` redraws every second; each redraw is an evaluation "at the
+// moment of the invocation" of that redraw: the instant handed to --now and to the today/yesterday
+// split is read from the clock inside the repeated callback (or the code it calls), never taken
+// from a reading made before the loop started.
+func ruleP17FollowFresh(p *Prog, r *Report) {
+	const rule = "P17-follow-fresh"
+	run := p.method("klog/app/cli", "Today", "Run")
+	wr := p.fn("klog/app/cli/util", "WithRepeat")
+	an := p.method("klog/app/cli/util", "NowArgs", "ApplyNow")
+	if !r.anchorFn(rule, run, "cli.(*Today).Run") || !r.anchorFn(rule, wr, "util.WithRepeat") || !r.anchorFn(rule, an, "NowArgs.ApplyNow") {
+		return
+	}
+	cs := callsTo(run, wr)
+	if len(cs) != 1 {
+		r.undecided(rule, "loop", p.pos(run.Pos()), "expected one WithRepeat call in Today.Run, found %d", len(cs))
+		return
+	}
+	cb := funcLiteral(cs[0].Common().Args[len(cs[0].Common().Args)-1])
+	if cb == nil {
+		r.undecided(rule, "callback", p.instrPos(cs[0]), "the repeated callback of today --follow is not a function literal")
+		return
+	}
+	rc := p.reach([]*ssa.Function{cb}, nil, nil)
+	extent := map[*ssa.Function]bool{cb: true}
+	for _, g := range rc.moduleFuncs() {
+		extent[g] = true
+		for _, a := range plainWithAnons(g) {
+			extent[a] = true
+		}
+	}
+	// where a clock value comes from: the ctx.Now() calls behind it
+	var origins func(v ssa.Value, depth int, seen map[ssa.Value]bool) ([]ssa.CallInstruction, bool)
+	origins = func(v ssa.Value, depth int, seen map[ssa.Value]bool) ([]ssa.CallInstruction, bool) {
+		if depth > 10 || seen[v] {
+			return nil, true
+		}
+		seen[v] = true
+		v = plainDeref(v)
+		switch x := v.(type) {
+		case *ssa.Call:
+			if x.Call.IsInvoke() && x.Call.Method.Name() == "Now" {
+				return []ssa.CallInstruction{x}, true
+			}
+			return nil, false
+		case *ssa.Parameter:
+			g := x.Parent()
+			idx := -1
+			for i, prm := range g.Params {
+				if prm == x {
+					idx = i
+				}
+			}
+			var out []ssa.CallInstruction
+			sites := ht.sites[originFn(g)]
+			if len(sites) == 0 || idx < 0 {
+				return nil, false
+			}
+			for _, s := range sites {
+				if !extent[s.Parent()] && s.Parent() != run {
+					continue
+				}
+				if idx >= len(s.Common().Args) {
+					return nil, false
+				}
+				o, ok := origins(s.Common().Args[idx], depth+1, seen)
+				if !ok {
+					return nil, false
+				}
+				out = append(out, o...)
+			}
+			return out, true
+		case *ssa.UnOp:
+			if x.Op == token.MUL {
+				if cell := cellOf(x.X); cell != nil {
+					var out []ssa.CallInstruction
+					for _, st := range storesTo(cell) {
+						o, ok := origins(st.val, depth+1, seen)
+						if !ok {
+							return nil, false
+						}
+						out = append(out, o...)
+					}
+					return out, true
+				}
+			}
+		case *ssa.Phi:
+			var out []ssa.CallInstruction
+			for _, e := range x.Edges {
+				o, ok := origins(e, depth+1, seen)
+				if !ok {
+					return nil, false
+				}
+				out = append(out, o...)
+			}
+			return out, true
+		}
+		return nil, false
+	}
+	n := 0
+	for g := range extent {
+		for _, c := range callsTo(g, an) {
+			n++
+			key := fmt.Sprintf("%s:ApplyNow", fnName(g))
+			os, ok := origins(c.Common().Args[1], 0, map[ssa.Value]bool{})
+			if !ok || len(os) == 0 {
+				r.undecided(rule, key, p.instrPos(c), "the instant given to --now inside the follow loop could not be traced to a clock reading")
+				continue
+			}
+			stale := ""
+			for _, o := range os {
+				if !extent[o.Parent()] {
+					stale = p.instrPos(o)
+				}
+			}
+			r.check(stale == "", rule, key, p.instrPos(c), "the instant is read from the clock at every refresh", "today --follow evaluates --now at an instant read once before the loop ("+stale+"): the running entry stops growing and the day split keeps the old date after midnight")
+		}
+	}
+	if n == 0 {
+		r.undecided(rule, "floor", p.pos(run.Pos()), "no ApplyNow call reachable from the follow callback of today")
+	}
+}
+
+// P09-summary-text — SummaryText.ToString, through which print, the JSON `summary` fields and the
+// record serialiser render summaries, joins ALL lines of the summary with the canonical line
+// ending: strings.Join(the receiver itself, canonicalLineEnding). An empty first line of an entry
+// summary (the text starts on the following line) is a line like any other.
+func ruleP09SummaryText(p *Prog, r *Report) {
+	const rule = "P09-summary-text"
+	f := p.method("klog/parser", "SummaryText", "ToString")
+	ge := p.global("klog/parser", "canonicalLineEnding")
+	if !r.anchorFn(rule, f, "parser.SummaryText.ToString") || ge == nil {
+		return
+	}
+	for i, ret := range returnsOf(f) {
+		ok := false
+		if c, idx := callOf(retResult(ret, 0)); c != nil && idx == 0 && staticCallee(c) != nil && staticCallee(c).String() == "strings.Join" {
+			a0 := plainDeref(c.Common().Args[0])
+			for hops := 0; hops < 3; hops++ {
+				if ct, isCT := a0.(*ssa.ChangeType); isCT {
+					a0 = plainDeref(ct.X)
+					continue
+				}
+				break
+			}
+			sep, isU := strip(c.Common().Args[1]).(*ssa.UnOp)
+			ok = a0 == ssa.Value(f.Params[0]) && isU && sep.X == ssa.Value(ge)
+		}
+		r.check(ok, rule, fmt.Sprintf("return#%d", i), p.instrPos(ret), "all lines joined with the canonical line ending", "SummaryText.ToString is not strings.Join(all lines of the summary, canonical line ending): a line of the summary is dropped or altered in print and JSON output")
+	}
+}
+
+// P09-rest-of-line — the summary text behind an entry's value is the WHOLE rest of its line:
+// Parseable.Remainder() is PeekUntil with a predicate that matches no character (every return of
+// the predicate is the constant false), and the continuation lines of the summary are cut the same
+// way. A predicate that stops at some character — the defect repaired as D10 stopped at U+FFFD,
+// which is what every byte that is not valid UTF-8 (a Latin-1 "é") decodes to — silently drops
+// the rest of the summary, tags included, from the record, from `print` and from the JSON output.
+func ruleP09RestOfLine(p *Prog, r *Report) {
+	const rule = "P09-rest-of-line"
+	rem := p.method("klog/parser/txt", "Parseable", "Remainder")
+	pu := p.method("klog/parser/txt", "Parseable", "PeekUntil")
+	parse, fam := parseFamily(p)
+	nes := p.fn("klog", "NewEntrySummary")
+	if !r.anchorFn(rule, rem, "txt.(*Parseable).Remainder") || !r.anchorFn(rule, pu, "txt.(*Parseable).PeekUntil") || !r.anchorFn(rule, parse, "parser.parse") || !r.anchorFn(rule, nes, "klog.NewEntrySummary") {
+		return
+	}
+	never := func(v ssa.Value) bool {
+		g := funcLiteral(v)
+		if g == nil || len(g.Blocks) == 0 {
+			return false
+		}
+		rets := plainReturnsOf(g)
+		if len(rets) == 0 {
+			return false
+		}
+		for _, ret := range rets {
+			if b, isB := constBool(ret.Results[0]); !isB || b {
+				return false
+			}
+		}
+		return true
+	}
+	// whole rest: v is result 0 of Remainder(), or of PeekUntil(never)
+	wholeRest := func(v ssa.Value) bool {
+		c, idx := callOf(v)
+		if c == nil || idx != 0 {
+			return false
+		}
+		switch {
+		case sameFn(staticCallee(c), rem):
+			return true
+		case sameFn(staticCallee(c), pu):
+			return never(c.Common().Args[1])
+		}
+		return false
+	}
+	for i, ret := range plainReturnsOf(rem) {
+		was := ht.enabled
+		ht.enabled = false
+		c, idx := callOf(ret.Results[0])
+		ok := c != nil && idx == 0 && sameFn(staticCallee(c), pu) && plainDeref(c.Common().Args[0]) == ssa.Value(rem.Params[0]) && never(c.Common().Args[1])
+		ht.enabled = was
+		r.check(ok, rule, fmt.Sprintf("Remainder:return#%d", i), p.instrPos(ret), "Remainder() = everything up to the end of the line", "Parseable.Remainder stops at a character instead of running to the end of the line: an entry summary that contains it (U+FFFD, i.e. any byte that is not valid UTF-8) is cut off there")
+	}
+	// every text handed to NewEntrySummary in parse is the whole rest of a line
+	n := 0
+	for _, f := range fam {
+		for _, c := range callsTo(f, nes) {
+			els, ok := sliceLitElems(c.Common().Args[0])
+			if !ok {
+				// append(previous lines, text): look at the appended element
+				if ac, _ := callOf(c.Common().Args[0]); ac != nil {
+					if bi, isB := ac.Common().Value.(*ssa.Builtin); isB && bi.Name() == "append" && len(ac.Common().Args) == 2 {
+						els, ok = sliceLitElems(ac.Common().Args[1])
+					}
+				}
+			}
+			if !ok {
+				continue
+			}
+			for _, e := range els {
+				if s, isS := constString(e); isS && s == "" {
+					continue
+				}
+				n++
+				nm, recv, _, mc := methodCall(e)
+				good := mc != nil && nm == "ToString" && recv != nil
+				if good {
+					rv := recv
+					if a, isA := plainDeref(rv).(*ssa.Alloc); isA {
+						if sts := storesTo(a); len(sts) == 1 {
+							rv = sts[0].val
+						}
+					}
+					good = wholeRest(rv)
+				}
+				r.check(good, rule, fmt.Sprintf("%s:summary-text#%d", fnName(f), n), p.instrPos(c), "the summary line is the whole rest of its line", "a line of an entry summary is not taken as the whole rest of its line")
+			}
+		}
+	}
+	if n < 2 {
+		r.undecided(rule, "floor", p.pos(parse.Pos()), "found %d entry-summary texts in parse, expected the first line and the continuation lines", n)
+	}
+}
+
+// P07-crlf-boundary — a chunk never ends between the `\r` and the `\n` of a line ending: the loop
+// that moves a chunk's end forward (to a rune boundary) also moves it forward while the byte
+// before it is `\r` and the byte at it is `\n`. A chunk that ends in a lone `\r` takes it for text —
+// a significant line — and a run of blank lines around the boundary is then attributed to the
+// following block instead of the preceding one: the parallel parser returns other blocks than the
+// serial one (D11, found with a differential scratch program: 2 workers,
+// "2020-01-01\r\n \r\n2020-01-01\r\n \r\n\r\n2020-01-01\r\n…").
+func ruleP07CrlfBoundary(p *Prog, r *Report) {
+	const rule = "P07-crlf-boundary"
+	f := p.fn("klog/parser/engine", "splitIntoChunks")
+	if !r.anchorFn(rule, f, "engine.splitIntoChunks") {
+		return
+	}
+	txt := f.Params[0]
+	byteAt := func(g Guard, want int64) (ssa.Value, bool) {
+		bo, ok := normCmp(g.Cond)
+		if !ok || !g.Pol || bo.Op != token.EQL {
+			return nil, false
+		}
+		x, y := bo.X, bo.Y
+		if _, isK := constInt(x); isK {
+			x, y = y, x
+		}
+		k, isK := constInt(y)
+		if !isK || k != want {
+			return nil, false
+		}
+		switch ix := plainDeref(x).(type) {
+		case *ssa.Index:
+			if strip(ix.X) == ssa.Value(txt) {
+				return ix.Index, true
+			}
+		case *ssa.Lookup:
+			if strip(ix.X) == ssa.Value(txt) {
+				return ix.Index, true
+			}
+		}
+		return nil, false
+	}
+	found := false
+	n := 0
+	for _, g := range withAnons(f) {
+		eachInstr(g, func(in ssa.Instruction) {
+			inc, ok := in.(*ssa.BinOp)
+			if !ok || inc.Op != token.ADD || !isIntType(inc.Type()) {
+				return
+			}
+			if k, isK := constInt(inc.Y); !isK || k != 1 {
+				return
+			}
+			q, isQ := strip(inc.X).(*ssa.Phi)
+			if !isQ {
+				return
+			}
+			// q = phi(…, inc): a forward-moving cursor
+			self := false
+			for _, e := range q.Edges {
+				if strip(e) == ssa.Value(inc) {
+					self = true
+				}
+			}
+			if !self {
+				return
+			}
+			n++
+			b := inc.Block()
+			for _, pb := range b.Preds {
+				var lf, cr bool
+				for _, gd := range append(append([]Guard{}, guardsOf(pb)...), edgeGuard(pb, b)...) {
+					if idx, isB := byteAt(gd, '\n'); isB && polySub(polyOf(idx), polyOf(q)).isConst() && polySub(polyOf(idx), polyOf(q)).C == 0 {
+						lf = true
+					}
+					if idx, isB := byteAt(gd, '\r'); isB && polySub(polyOf(idx), polyOf(q)).isConst() && polySub(polyOf(idx), polyOf(q)).C == -1 {
+						cr = true
+					}
+				}
+				if lf && cr {
+					found = true
+				}
+			}
+		})
+	}
+	if n == 0 {
+		r.undecided(rule, "cursor", p.pos(f.Pos()), "no forward-moving cursor (x++ in a loop) found in splitIntoChunks")
+		return
+	}
+	r.check(found, rule, "advance", p.pos(f.Pos()), "a chunk end between \\r and \\n is moved forward", "splitIntoChunks can end a chunk between the \\r and the \\n of a line ending: the lone \\r counts as text in that chunk and blank lines around the boundary end up in a different block than with the serial parser")
+}
